@@ -224,7 +224,7 @@ class Interp:
             changed = False
             atoms = []
             for a in v.atoms:
-                if isinstance(a, Run) and a in self.unfolded:
+                if (isinstance(a, Run) or _is_rep(a)) and a in self.unfolded:
                     atoms.extend(self.unfolded[a])
                     changed = True
                 else:
@@ -242,7 +242,7 @@ class Interp:
             blocker = None
             n_seen = 0
             for x in seq:
-                if isinstance(x, Run):
+                if isinstance(x, Run) or (_is_rep(x) and isinstance(x.lit, str) and len(x.lit) >= 1):
                     blocker = x
                     break
                 if _is_rep(x) or type(x).__name__ == "Blob":
@@ -250,6 +250,14 @@ class Interp:
                 n_seen += 1
             if blocker is None:
                 return v
+            if _is_rep(blocker):
+                # lit * count: either there is no repetition at all, or one copy can be split off at this end
+                if self.compare_lin(ast.Gt, blocker.count, Lin.of(0)):
+                    rest = Rep(blocker.lit, blocker.count - 1)
+                    self.unfolded[blocker] = [rest, blocker.lit] if from_end else [blocker.lit, rest]
+                else:
+                    self.unfolded[blocker] = []
+                continue
             opts = ["<empty>"] + [c.name for c in blocker.classes]
             choice = self.chooser.choose("%s character of run %s" % ("last" if from_end else "first", blocker.name), opts)
             if choice == "<empty>":
@@ -276,6 +284,8 @@ class Interp:
         phi = hi - lin.const if hi is not None else INF
         qlo, qhi = (plo, phi) if sign > 0 else (-phi, -plo)
         self.refine[sh] = (max(nl, qlo), min(nh, qhi))
+        # the canonical non-constant part itself, for rules that want to use an equation (lo == hi) by substitution
+        self.__dict__.setdefault("refine_src", {})[sh] = (lin - Lin({}, lin.const)).scale(sign)
 
     def compare_lin(self, op, a, b, node=None):
         d = self.resolve(Lin.of(a) - Lin.of(b))
@@ -865,6 +875,10 @@ class Interp:
                 if r is None:
                     raise CannotDecide("partition too coarse: %r in %r" % (item, container))
                 return r
+            if isinstance(item, AbsStr) and len(container) <= 64:
+                # substring test: the text is one of the (finitely many) substrings of the container, the empty one included
+                subs = sorted({container[i:j] for i in range(len(container) + 1) for j in range(i, len(container) + 1)})
+                return self.contains(subs, item, node)
         if isinstance(container, AbsStr) and isinstance(item, str) and len(item) == 1:
             sure = False
             maybe = False
@@ -1340,10 +1354,13 @@ class Interp:
             m = self.repo.find_method(recv.cls, name)
             if m is not None:
                 key = "%s.%s" % (m.module.name, m.qualname)
+                decos = {d.id for d in getattr(m.node, "decorator_list", []) if isinstance(d, ast.Name)}
+                # a static method gets no receiver, a class method gets the class
+                first = [] if "staticmethod" in decos else ([AClass(recv.cls)] if "classmethod" in decos else [recv])
                 if key in self.summaries:
-                    return self.summaries[key](self, [recv] + list(args), kwargs, node)
+                    return self.summaries[key](self, first + list(args), kwargs, node)
                 if self.inline:
-                    return self.call_function(m, [recv] + list(args), kwargs, node)
+                    return self.call_function(m, first + list(args), kwargs, node)
             self.events.append(("method", "%s.%s" % (recv.name, name), args, node))
             return Opaque("method:%s" % name, [recv] + list(args))
         if isinstance(recv, list):
@@ -1538,13 +1555,19 @@ class Interp:
             if name == "isupper" and any(c.islower() for c in defs):
                 return False
             raise CannotDecide("%s() of %r" % (name, recv))
-        if name == "replace" and len(args) == 2 and isinstance(args[0], str) and isinstance(args[1], str) and args[0]:
+        if name == "replace" and len(args) in (2, 3) and isinstance(args[0], str) and isinstance(args[1], str) and args[0] \
+                and (len(args) == 2 or (isinstance(args[2], int) and not isinstance(args[2], bool))):
             recv2 = recv if isinstance(recv, AbsStr) else AbsStr([recv])
             pat = set(args[0])
+            left = args[2] if len(args) == 3 and args[2] >= 0 else None  # occurrences still to be replaced (None: all)
             out = []
             for a in recv2.atoms:
                 if isinstance(a, str):
-                    out.append(a.replace(args[0], args[1]))
+                    if left is None:
+                        out.append(a.replace(args[0], args[1]))
+                    else:
+                        out.append(a.replace(args[0], args[1], left))
+                        left -= min(left, a.count(args[0]))
                     continue
                 chars = set()
                 if isinstance(a, Ch):
